@@ -738,3 +738,197 @@ func init() {
 		return s, map[string]any{"mode": "roundtrip", "form": form, "cmpeq": !hasFoldOrCap(s)}
 	}
 }
+
+
+// ---- IsEqual -------------------------------------------------------------------------
+
+func eqVerdict(a, b any) string {
+	var err error
+	if s, ok := stackage.ConvertStack(a); ok {
+		err = s.IsEqual(b)
+	} else if c, ok := stackage.ConvertCondition(a); ok {
+		err = c.IsEqual(b)
+	} else {
+		return "n/a"
+	}
+	if err != nil {
+		return "err"
+	}
+	return "nil"
+}
+
+func init() {
+	evaluators["equal"] = func(in Node, _ any) any {
+		an, _ := in["a"].(map[string]any)
+		bn, _ := in["b"].(map[string]any)
+		a, b := BuildNode(an), BuildNode(bn) // two independent builds
+		return []string{eqVerdict(a, b), eqVerdict(b, a)}
+	}
+	treeGenerators["equal"] = func(g *treeGen) (Node, any) {
+		g.nils, g.validConds = true, true
+		a := g.eqStack(0)
+		b := toGeneric(a).(map[string]any)
+		if g.rng.Intn(3) != 0 {
+			g.mutate(b)
+		}
+		return Node{"t": "pair", "a": a, "b": b}, nil
+	}
+}
+
+func (g *treeGen) eqLeaf() Node {
+	ints := func(n int) []any {
+		out := []any{}
+		for i := 0; i < n; i++ {
+			out = append(out, Node{"t": "leaf", "ty": "int", "v": []any{fmt.Sprint(1 + g.rng.Intn(8))}})
+		}
+		return out
+	}
+	switch g.rng.Intn(12) {
+	case 0:
+		return Node{"t": "nil"}
+	case 1:
+		return Node{"t": "leaf", "ty": "int", "v": []any{fmt.Sprint(1 + g.rng.Intn(8))}}
+	case 2:
+		return Node{"t": "leaf", "ty": "bool", "v": toksAny(Tokenize("true"))}
+	case 3:
+		return Node{"t": "ptr", "d": 1 + g.rng.Intn(2), "x": Node{"t": "leaf", "ty": "int", "v": []any{"5"}}}
+	case 4, 5:
+		return Node{"t": "sl", "arr": g.rng.Intn(3) == 0, "e": ints(1 + g.rng.Intn(4))}
+	case 6:
+		return Node{"t": "sl", "arr": false, "e": []any{Node{"t": "sl", "arr": false, "e": ints(2)}, Node{"t": "sl", "arr": false, "e": ints(1 + g.rng.Intn(3))}}}
+	case 7:
+		return Node{"t": "mp", "ks": []any{[]any{"k"}, []any{"j"}}, "vs": []any{[]any{"1"}, []any{fmt.Sprint(2 + g.rng.Intn(7))}}}
+	case 8:
+		return Node{"t": "st", "a": []any{fmt.Sprint(1 + g.rng.Intn(8))}, "p": []any{"p"}, "c": []any{"c"}}
+	case 9:
+		return Node{"t": "ptr", "d": 1, "x": Node{"t": "st", "a": []any{"3"}, "p": []any{"r"}, "c": []any{"d"}}}
+	}
+	return Node{"t": "leaf", "ty": "str", "v": g.toks(1, 3, []string{"a", "b", "x"})}
+}
+
+func (g *treeGen) eqStack(depth int) Node {
+	n := Node{"t": "stk", "k": []string{"AND", "OR", "NOT", "LIST", "BASIC"}[g.rng.Intn(5)], "form": "native", "paren": g.rng.Intn(2) == 0, "fold": false,
+		"nspad": g.rng.Intn(2) == 0, "lonce": false, "sym": []any{}, "delim": []any{}, "enc": []any{}, "neg": false, "fwd": false, "mtx": false,
+		"cap": []int{0, 0, 9}[g.rng.Intn(3)]}
+	kids := []any{}
+	for i := 0; i < g.rng.Intn(4); i++ {
+		r := g.rng.Intn(10)
+		switch {
+		case r < 6 || depth >= g.maxDepth:
+			kids = append(kids, g.eqLeaf())
+		case r < 8:
+			s := g.eqStack(depth + 1)
+			s["form"] = g.form()
+			kids = append(kids, s)
+		default:
+			var ex Node
+			if g.rng.Intn(2) == 0 {
+				ex = g.eqLeaf()
+				if ex["t"] == "nil" {
+					ex = Node{"t": "leaf", "ty": "str", "v": []any{"v"}}
+				}
+			} else {
+				ex = g.eqStack(depth + 1)
+			}
+			kids = append(kids, Node{"t": "cnd", "form": g.form(), "kw": []any{"k"}, "op": []string{"Eq", "Ne", "Ge"}[g.rng.Intn(3)], "ex": ex,
+				"paren": false, "nspad": false, "enc": []any{}})
+		}
+	}
+	n["e"] = kids
+	return n
+}
+
+// mutate applies one random point mutation somewhere in the description
+func (g *treeGen) mutate(n map[string]any) {
+	bump := func(v any) []any {
+		t := anyToks(v)
+		if len(t) == 0 {
+			return []any{"q"}
+		}
+		c := "q"
+		if t[0] >= "0" && t[0] <= "8" {
+			c = "9"
+		} else if t[0] == "9" {
+			c = "8"
+		} else if t[0] == "q" {
+			c = "w"
+		}
+		return append([]any{c}, toksAny(t[1:])...)
+	}
+	kids := func(k string) []any { l, _ := n[k].([]any); return l }
+	switch n["t"] {
+	case "leaf":
+		if n["ty"] == "bool" {
+			if Detok(anyToks(n["v"])) == "true" {
+				n["v"] = toksAny(Tokenize("false"))
+			} else {
+				n["v"] = toksAny(Tokenize("true"))
+			}
+		} else {
+			n["v"] = bump(n["v"])
+		}
+	case "ptr":
+		g.mutate(n["x"].(map[string]any))
+	case "sl":
+		e := kids("e")
+		if len(e) == 0 {
+			return
+		}
+		g.mutate(e[g.rng.Intn(len(e))].(map[string]any))
+	case "mp":
+		vs := kids("vs")
+		if len(vs) > 0 {
+			i := g.rng.Intn(len(vs))
+			if g.rng.Intn(2) == 0 {
+				vs[i] = bump(vs[i])
+			} else {
+				ks := kids("ks")
+				ks[i] = bump(ks[i])
+			}
+		}
+	case "st":
+		switch g.rng.Intn(3) {
+		case 0:
+			n["a"] = bump(n["a"])
+		case 1:
+			n["c"] = bump(n["c"])
+		default:
+			n["p"] = bump(n["p"]) // unexported: must NOT matter
+		}
+	case "cnd":
+		switch g.rng.Intn(4) {
+		case 0:
+			n["kw"] = bump(n["kw"])
+		case 1:
+			if n["op"] == "Eq" {
+				n["op"] = "Ne"
+			} else {
+				n["op"] = "Eq"
+			}
+		default:
+			g.mutate(n["ex"].(map[string]any))
+		}
+	case "stk":
+		e := kids("e")
+		switch r := g.rng.Intn(8); {
+		case r == 0:
+			if n["k"] == "AND" {
+				n["k"] = "OR"
+			} else {
+				n["k"] = "AND"
+			}
+		case r == 1 && len(e) > 0:
+			n["e"] = e[1:]
+		case r == 2:
+			n["paren"] = !nBool(n, "paren") // must NOT matter
+		case len(e) > 0:
+			if m, ok := e[g.rng.Intn(len(e))].(map[string]any); ok && m["t"] != "nil" {
+				g.mutate(m)
+			} else {
+				n["e"] = append(e, Node{"t": "leaf", "ty": "str", "v": []any{"z"}})
+			}
+		default:
+			n["e"] = append(e, Node{"t": "leaf", "ty": "str", "v": []any{"z"}})
+		}
+	}
+}
